@@ -779,12 +779,82 @@ class Inliner:
             out.extend(new if new is not None else [st])
         return out
 
+    # ------------------------------------------------------------------ expression-level expansion
+    def expand_expression_calls(self, fn, host_cls, own_qual):
+        """A new helper whose body is one `return <expr>` is an abbreviation: a call of it is replaced by the expression wherever it
+        stands (inside a comprehension, a lambda, an argument list), parameters substituted -- defaults included, which is where a dropped
+        keyword shows. Arguments must be simple or pure; names the expression binds itself are renamed when they clash."""
+        host_all = _names(fn)
+        inl = self
+
+        class X(ast.NodeTransformer):
+            def visit_FunctionDef(self_, node):
+                return node if node is not fn else self_.generic_visit(node)
+
+            visit_AsyncFunctionDef = visit_ClassDef = visit_FunctionDef
+
+            def visit_Call(self_, node):
+                self_.generic_visit(node)
+                res = inl._callee(node, host_cls)
+                if res is None:
+                    return node
+                h, cls, self_expr = res
+                q = inl._qual(cls, h.name)
+                body = [st for st in h.body if not (isinstance(st, ast.Expr) and isinstance(st.value, ast.Constant))]
+                if q == own_qual or len(body) != 1 or not isinstance(body[0], ast.Return) or body[0].value is None or h.args.kwarg or h.args.vararg:
+                    return node
+                a = h.args
+                pos = [x.arg for x in a.posonlyargs + a.args]
+                kwonly = [x.arg for x in a.kwonlyargs]
+                if any(isinstance(x, ast.Starred) for x in node.args) or any(k.arg is None for k in node.keywords):
+                    return node
+                given = {}
+                params = list(pos)
+                if self_expr is not None:
+                    if not params:
+                        return node
+                    given[params[0]] = self_expr
+                    params = params[1:]
+                if len(node.args) > len(params):
+                    return node
+                for p_, v in zip(params, node.args):
+                    given[p_] = v
+                for k in node.keywords:
+                    if k.arg in given or k.arg not in pos + kwonly:
+                        return node
+                    given[k.arg] = k.value
+                defaults = dict(zip(pos[len(pos) - len(a.defaults):], a.defaults))
+                for p_, d in zip(kwonly, a.kw_defaults):
+                    if d is not None:
+                        defaults[p_] = d
+                for p_ in pos + kwonly:
+                    if p_ not in given:
+                        if p_ not in defaults:
+                            return node
+                        given[p_] = defaults[p_]
+                expr = copy.deepcopy(body[0].value)
+                bound = {n.id for n in ast.walk(expr) if isinstance(n, ast.Name) and isinstance(n.ctx, ast.Store)} | {x.arg for x in ast.walk(expr) if isinstance(x, ast.arg)}
+                arg_names = {n.id for v in given.values() for n in ast.walk(v) if isinstance(n, ast.Name)}
+                for p_ in pos + kwonly:
+                    v = given[p_]
+                    uses = sum(1 for n in ast.walk(expr) if isinstance(n, ast.Name) and n.id == p_)
+                    if not (_simple(v) or (_pure(v) and uses <= 1)):
+                        return node
+                inl.counter += 1
+                mapping = {b: f"{b}__e{inl.counter}" for b in bound if b in host_all or b in arg_names}
+                mapping.update({p_: given[p_] for p_ in pos + kwonly if p_ not in bound})
+                inl.expanded[q] = inl.expanded.get(q, 0) + 1
+                return ast.copy_location(_Subst(mapping).visit(expr), node)
+
+        X().visit(fn)
+
     # ------------------------------------------------------------------ whole module
     def run(self) -> ast.Module:
         def host(fn, cls):
             names = {"stores": _stores(fn), "params": set(_params(fn)) | ({fn.args.vararg.arg} if fn.args.vararg else set()) | ({fn.args.kwarg.arg} if fn.args.kwarg else set()), "all": _names(fn)}
             own = self._qual(cls, fn.name)
             fn.body = self.expand_block(fn.body, cls, names, frozenset({own}))
+            self.expand_expression_calls(fn, cls, own)
             for sub in _own_nodes(fn):
                 if isinstance(sub, (ast.FunctionDef, ast.AsyncFunctionDef)):
                     host(sub, cls)
